@@ -102,6 +102,15 @@ func c17Base(r gen.R) (*sl.Program, []string) {
 				steers = append(steers, l3)
 				rule.Chain.Chain = &sl.Rule{Phase: rule.Phase, Severity: -1, Targets: []sl.Sel{{Var: "ARGS_GET", Kind: 1, Key: l3}, {Var: "ARGS_GET", Kind: 1, Key: a}}, Op: &sl.Op{Name: "streq", Arg: "1"},
 					Setvars: []sl.Setvar{{Key: fmt.Sprintf("d%d", id), Kind: "+", Val: "1"}}}
+				if gen.Chance(r, 0.5) {
+					// only the third member reads the collection a run-time removal will name: the starter reads body
+					// arguments, the second member a request header
+					h := fmt.Sprintf("h%d", id)
+					steers = append(steers, h)
+					rule.Targets = []sl.Sel{{Var: "ARGS_POST", Kind: 1, Key: b}}
+					rule.Op = &sl.Op{Name: "streq", Arg: "1"}
+					rule.Chain.Targets = []sl.Sel{{Var: "REQUEST_HEADERS", Kind: 1, Key: h}}
+				}
 			}
 		}
 		p.Items = append(p.Items, sl.Item{Rule: rule})
@@ -601,6 +610,8 @@ func c17Request(r gen.R, steers []string, base *sl.Program) *sl.Req {
 		switch s[0] {
 		case 'b':
 			req.Post = append(req.Post, sl.KV{K: s, V: "1"})
+		case 'h':
+			req.Headers = append(req.Headers, sl.KV{K: s, V: "1"})
 		case 'x':
 			if gen.Chance(r, 0.5) {
 				req.Get = append(req.Get, sl.KV{K: s, V: "1"})
